@@ -316,6 +316,12 @@ def _run_memory(job) -> dict:
 
 
 def _worker(shard):
+    # import everything once in the worker so that forked children start warm (the worker itself never opens DuckDB)
+    import duckdb  # noqa: F401
+    import fakesnow  # noqa: F401
+    import fakesnow.instance  # noqa: F401
+    import pyarrow  # noqa: F401
+    import snowflake.connector  # noqa: F401
     return [(_run_memory(j) if j["mode"] == "memory" else _run_point(j)) for j in shard]
 
 
@@ -339,15 +345,18 @@ CORE = [
 
 
 def _random_hist(rnd: random.Random) -> list[str]:
-    out, live, intx, views = [], [], False, 0
+    out, live, intx, views, saved = [], [], False, 0, []
     n = rnd.randint(4, 9)
     next_t = 0
     for _ in range(n):
         r = rnd.random()
         if not intx and r < 0.15:
             out.append("b"); intx = True
+            saved = list(live)
         elif intx and r < 0.2:
             out.append(rnd.choice(["c", "c", "r"])); intx = False
+            if out[-1] == "r":
+                live = saved          # tables created inside a rolled-back block are gone
         elif r < 0.4 or not live:
             if next_t < 4:
                 out.append(f"T{next_t}.{rnd.choice(['-', str(rnd.randrange(9))])}.{rnd.choice(['-', str(rnd.randrange(1, 40))])}")
@@ -430,7 +439,7 @@ def _addr(real_calls: list[str]) -> str:
 def run(chk) -> None:
     rnd = random.Random(chk.seed)
     quick = chk.tier == "quick"
-    hists = [[CONNECT] + h for h in CORE] + [[CONNECT] + _random_hist(rnd) for _ in range(6 if quick else 60)]
+    hists = [[CONNECT] + h for h in CORE] + [[CONNECT] + _random_hist(rnd) for _ in range(14 if quick else 150)]
     # stage 1: every history to the end (clean exit / exception exit); gives the real engine-call log
     jobs1 = []
     for hi, h in enumerate(hists):
@@ -460,17 +469,17 @@ def run(chk) -> None:
         ks = [k for k in range(total + 1) if hi == 0 or k >= firstlen.get(hi, 0)]
         core = hi < len(CORE)
         if quick:
-            keep = len(ks) if hi in (0, 2, 3, 4) else (6 if core else 5)
+            keep = len(ks) if core else 8
         else:
-            keep = len(ks) if core else 16
+            keep = len(ks)
         if keep < len(ks):
             ks = sorted(rnd.sample(ks, keep))
         for k in ks:
             jobs2.append({"hi": hi, "hist": h, "kill": k, "mode": "kill", "schema_opt": (k + hi) % 4 == 0})
     # two-phase: a second process continues on the directory left by a killed first one
-    for hi in ([0, 3, 6] if quick else range(len(CORE))):
+    for hi in ([0, 2, 3, 5, 6] if quick else range(len(CORE))):
         total = totals.get(hi, 0)
-        for k in rnd.sample(range(total + 1), 2 if quick else 6):
+        for k in rnd.sample(range(total + 1), 3 if quick else 8):
             jobs2.append({"hi": hi, "hist": hists[hi], "kill": k, "mode": "kill2", "schema_opt": False,
                           "hist2": None})  # hist2 filled in below, after asking the model which schema exists
     # ask the model about phase 1 of the two-phase jobs to know whether S1 / the table exist
@@ -570,13 +579,13 @@ def _check_point(chk, job, r, rep) -> None:
     # engine-call decomposition (durable calls only: read-only calls may come and go)
     mcalls = rep["calls"].split("|")
     rc = r["calls"]
+    calls_bad = None
     for i, c in enumerate(rc):
         full = i < len(rc) - 1 or mode != "kill" or r["exited"]
         if i >= len(mcalls) or (_nonq(c) != _nonq(mcalls[i]) if full else not _nonq(mcalls[i]).startswith(_nonq(c))):
-            chk.violation(f"statement #{i} `{job['hist'][i]}` of {job['hist']} issued engine calls {c!r} but the model of its decomposition "
-                          f"(Fs.Crash.calls) is {mcalls[i] if i < len(mcalls) else None!r}", case,
-                          broken="Fs.Crash.calls (engine-call decomposition)", failing_input=False)
-            return
+            calls_bad = (f"statement #{i} `{job['hist'][i]}` of {job['hist']} issued engine calls {c!r} but the model of its decomposition "
+                         f"(Fs.Crash.calls) is {mcalls[i] if i < len(mcalls) else None!r}")
+            break
     if mode == "kill":
         chk.count("interrupted:" + (job["hist"][int(rep["stmt"])][0] if int(rep["stmt"]) < len(job["hist"]) and rep["j"] != "0" else "boundary"))
     before, after = _heal(_canon_model(rep["before"]), so), _heal(_canon_model(rep["after"]), so)
@@ -590,15 +599,18 @@ def _check_point(chk, job, r, rep) -> None:
              f"{rep['j']} of its calls done)") if mode == "kill" else f"{mode} exit"
     if real == impl:
         if real in allowed:
+            if calls_bad:
+                # only the internal decomposition differs here; other kill points of the sweep look for an observable failure
+                chk.violation(calls_bad, case, broken="Fs.Crash.calls (engine-call decomposition)", failing_input=False)
             return
         chk.finding(key, f"history {job['hist']} {where}: a later process finds {real}; the property allows only the statement-boundary states "
                          f"{before} or {after}", case)
         return
-    if real in allowed and impl not in allowed:
+    if real in allowed and impl not in allowed and not calls_bad:
         chk.notes.append(f"finding {key} no longer reproduces on {job['hist']} kill={job.get('kill')}")
         return
     chk.violation(f"history {job['hist']} {where}: a later process ({'connect(database, schema)' if so else 'connect(database)'}) finds {real} "
-                  f"but the committed state is {impl} (allowed: {allowed})", case,
+                  f"but the committed state is {impl} (allowed: {allowed})" + (f"; {calls_bad}" if calls_bad else ""), case,
                   broken="C18_committed_survive / C18_uncommitted_absent / C18_stmt_atomic_partial (correspondence with Fs.Crash.crash)")
 
 
